@@ -25,24 +25,56 @@
 (*     adjacency is exactly what has been announced.                        *)
 (* Reason() names the violated clause, so that the trace validator can say  *)
 (* WHY an implementation step is not a step of this specification.          *)
+(*                                                                          *)
+(* CONFIGURATION (round 6).  The two components are launched with options:  *)
+(* `cfg` is the option record of a behaviour, chosen in Init and constant   *)
+(* afterwards.  The property is stated for every legal configuration:       *)
+(*   cfg.to    openflow.discovery --link_timeout (whole seconds >= 1): the  *)
+(*             probe cycle is to/2, so Cycle / Timeout / Detect / Expire    *)
+(*             are functions of cfg, not constants;                         *)
+(*   cfg.flow, cfg.drop, cfg.eat   --no_flow (negated), --explicit_drop,    *)
+(*             --eat_early_packets: no clause depends on them (the property *)
+(*             holds whatever they are);                                    *)
+(*   cfg.nofl, cfg.hold   openflow.spanning_tree --no-flood / --hold-down:  *)
+(*             a switch that connected less than Hold = Cycle + 1 seconds   *)
+(*             ago ("young", `since`) is not updated (hold) / has flooding  *)
+(*             disabled on all its ports (nofl); FloodReasonM says what is  *)
+(*             still demanded meanwhile and that everything is demanded     *)
+(*             once no switch is young.                                     *)
+(* Environment assumption: the probes of one cycle fit the sender's rate    *)
+(* limit (CfgFits); beyond it the sender batches at random.                 *)
 EXTENDS Naturals, Sequences, FiniteSets, TLC, Json
 
 CONSTANTS Nets,        \* candidate networks [n, np, wires]
-          Durations,   \* Advance(d) values explored by the model checker
-          Cycle,       \* probe cycle: every probe is sent once per Cycle
-          Timeout,     \* a link not refreshed for Timeout is dead
+          Configs,     \* candidate option records [to, flow, drop, eat, nofl, hold]
+          Durations,   \* Advance(d) values explored by the model checker ({} = {Detect, Expire} of the configuration)
           CheckPeriod, \* how often timeouts are looked for
+          SendsPerSec, \* rate limit of the probe sender (timer runs per second)
           Slack,       \* timer granularity allowance
           D            \* export depth
 
-Detect == Cycle + Slack
-Expire == Timeout + CheckPeriod + Slack
-Cap    == Expire
+VARIABLES net, cfg, phys, conn, adj, nf, age, quiet, since, last, hist
+vars  == <<net, cfg, phys, conn, adj, nf, age, quiet, since, last, hist>>
+view  == <<net, cfg, phys, conn, adj, nf, age, quiet, since, last>>
+viewE == <<net, cfg, phys, conn, adj, nf, age, quiet, since>>
 
-VARIABLES net, phys, conn, adj, nf, age, quiet, last, hist
-vars  == <<net, phys, conn, adj, nf, age, quiet, last, hist>>
-view  == <<net, phys, conn, adj, nf, age, quiet, last>>
-viewE == <<net, phys, conn, adj, nf, age, quiet>>
+\* timing as a function of the configured link timeout (whole seconds; the
+\* probe cycle is half the timeout, rounded up where it is not whole)
+Timeout == cfg.to                 \* a link not refreshed for Timeout is dead
+Cycle   == (cfg.to + 1) \div 2    \* every probe is sent once per Cycle
+Detect  == Cycle + Slack
+Expire  == Timeout + CheckPeriod + Slack
+Cap     == Expire
+\* spanning_tree's hold time: one probe cycle + 1 s after a switch connected
+Modal   == cfg.nofl \/ cfg.hold
+Hold    == Cycle + 1
+HoldCap == Hold + Slack
+\* ({0}: the shortest step after which every clause is in force again, and Expire)
+DurSet  == IF Durations = {} THEN {Detect, Expire}
+           ELSE IF Durations = {0} THEN {IF Modal THEN HoldCap ELSE Detect, Expire}
+           ELSE Durations
+\* the probes of one cycle (one per port of every switch) fit the rate limit
+CfgFits(c, nt) == 2 * nt.n * nt.np <= SendsPerSec * c.to
 
 Switches     == 1..net.n
 PortsOf(s)   == 1..net.np
@@ -94,10 +126,23 @@ EvFinal(cur, es) ==          \* [ok, set]: alternation respected, resulting set
           THEN IF l \in cur THEN [ok |-> FALSE, set |-> cur] ELSE EvFinal(cur \cup {l}, Tail(es))
           ELSE IF l \notin cur THEN [ok |-> FALSE, set |-> cur] ELSE EvFinal(cur \ {l}, Tail(es))
 
-EvReason(es, A) ==
+EvLinks(es, k) == {<<es[i][2], es[i][3], es[i][4], es[i][5]>> : i \in {j \in DOMAIN es : es[j][1] = k}}
+
+\* The announcements INSIDE a step (a link may be withdrawn and announced again
+\* before the step ends, which the adjacency reached does not show): a link is
+\* only announced while probes can travel over it (lv: wires change in steps of
+\* their own, so the live set is the same during the whole step), and a link
+\* that was known and live before and after the step is not withdrawn in a
+\* 0-second step, nor when the network had already been undisturbed for a full
+\* probe cycle when the step began (`age` / `quiet` of the state before).
+EvReason(es, A, lv, lv0, dt) ==
   LET r == EvFinal(adj, es) IN
   IF ~r.ok THEN "events-not-alternating"
   ELSE IF r.set # A THEN "events-disagree-with-adjacency"
+  ELSE IF \E l \in EvLinks(es, 1) : l \notin net.wires THEN "adj-phantom-link"
+  ELSE IF \E l \in EvLinks(es, 1) : l \notin lv THEN "adj-dead-link-added"
+  ELSE IF \E l \in EvLinks(es, 0) \cap adj \cap lv \cap lv0 :
+             dt = 0 \/ (quiet >= Detect /\ age[l] >= Detect) THEN "adj-live-link-dropped"
   ELSE "ok"
 
 \* NO_FLOOD set NF for adjacency A and connected switches cn
@@ -118,12 +163,46 @@ FloodReason(A, cn, NF, nf0) ==
   ELSE IF \E l \in B : l[3] \notin cm[l[1]] THEN "flood-not-spanning"
   ELSE "ok"
 
-Reason(R, ph, cn, ag, q, dt, lv0) ==
+\* ---- spanning_tree options (cfg.nofl, cfg.hold); sn = time since each switch connected
+MaybeYoung(cn, sn) == IF Modal THEN {s \in cn : sn[s] < HoldCap} ELSE {}
+SureYoung(cn, sn)  == IF Modal THEN {s \in cn : sn[s] < Hold} ELSE {}
+Linked(A)          == {l[1] : l \in A} \cup {l[3] : l \in A}
+\* --no-flood without --hold-down: a switch connects with flooding disabled on
+\* all its ports and may stay so while it is young and no link of it is known
+Held(A, cn, NF, sn) == {s \in MaybeYoung(cn, sn) \ Linked(A) : PortsIn({s}) \subseteq NF}
+
+\* --hold-down and some switch is (maybe) young: switches certainly young are
+\* left alone (all ports blocked at the connect with --no-flood, untouched
+\* otherwise); the tree is computed over all switches but pushed to the mature
+\* ones only, so of the forest clauses only these remain: host-facing ports of
+\* mature switches flood, the flooding links among mature switches are acyclic
+HeldReason(A, cn, NF, nf0, sn) ==
+  LET cp == PortsIn(cn)
+      M  == cn \ MaybeYoung(cn, sn)
+      yp == PortsIn(SureYoung(cn, sn))
+      TM == {l \in Bi(A) : /\ l[1] \in M /\ l[3] \in M
+                           /\ <<l[1], l[2]>> \notin NF /\ <<l[3], l[4]>> \notin NF}
+  IN
+  IF ~(NF \subseteq PortsIn(Switches)) THEN "flood-unknown-port"
+  ELSE IF (NF \ cp) # (nf0 \ cp) THEN "flood-port-of-disconnected-switch-changed"
+  ELSE IF cfg.nofl /\ ~(yp \subseteq NF) THEN "flood-enabled-during-hold-down"
+  ELSE IF ~cfg.nofl /\ (NF \cap yp) # (nf0 \cap yp) THEN "flood-changed-during-hold-down"
+  ELSE IF \E sp \in PortsIn(M) \ Ends(A) : sp \in NF THEN "flood-host-port-blocked"
+  ELSE IF Cardinality(TM) # 2 * (net.n - NComp(Switches, TM)) THEN "flood-cycle"
+  ELSE "ok"
+
+FloodReasonM(A, cn, NF, nf0, sn) ==
+  IF ~Modal THEN FloodReason(A, cn, NF, nf0)
+  ELSE IF ~cfg.hold THEN FloodReason(A, cn, NF \ PortsIn(Held(A, cn, NF, sn)), nf0)
+  ELSE IF MaybeYoung(cn, sn) = {} THEN FloodReason(A, cn, NF, nf0)
+  ELSE HeldReason(A, cn, NF, nf0, sn)
+
+Reason(R, ph, cn, ag, q, dt, lv0, sn) ==
   LET a == AdjReason(R.adj, ph, cn, ag, q, dt, lv0) IN
   IF a # "ok" THEN a
-  ELSE LET e == EvReason(R.evs, R.adj) IN
+  ELSE LET e == EvReason(R.evs, R.adj, LiveSet(ph, cn), lv0, dt) IN
        IF e # "ok" THEN e
-       ELSE FloodReason(R.adj, cn, R.nf, nf)
+       ELSE FloodReasonM(R.adj, cn, R.nf, nf, sn)
 
 ----------------------------------------------------------------------------
 (* What a flooded frame does (the "so ..." clause): it enters switch s on   *)
@@ -150,18 +229,21 @@ Storm(s, p)    == Deep(s, p, Hops)
 Delivered(s, p) == [t \in Switches |-> Arrivals(s, p, t, Hops)]
 
 HostPorts(s) == {p \in PortsOf(s) : \A l \in net.wires : ~(l[1] = s /\ l[2] = p) /\ ~(l[3] = s /\ l[4] = p)}
-Converged == conn = Switches /\ adj = LiveSet(phys, conn)
+Settled   == MaybeYoung(conn, since) = {}
+Converged == conn = Switches /\ adj = LiveSet(phys, conn) /\ Settled
 
 ----------------------------------------------------------------------------
 NoObs == [a |-> "Init", args |-> [x |-> 0], exp |-> [x |-> 0]]
 
 Init == /\ net \in Nets
+        /\ cfg \in {c \in Configs : CfgFits(c, net)}
         /\ phys \in SUBSET net.wires
         /\ conn = {}
         /\ adj = {}
         /\ nf = {}
         /\ age = [l \in net.wires |-> Cap]
         /\ quiet = Cap
+        /\ since = [s \in Switches |-> HoldCap]
         /\ last = NoObs
         /\ hist = <<>>
 
@@ -173,20 +255,24 @@ Log(a, args, exp) ==
 NewAge(ph, cn, dt) ==
   [l \in net.wires |-> IF IsLive(l, ph, cn) # IsLive(l, phys, conn) THEN 0
                        ELSE Lesser(age[l] + dt, Cap)]
+\* (kept constant when no spanning_tree option is set: no clause reads it then)
+NewSince(cn, dt) ==
+  IF ~Modal THEN since
+  ELSE [s \in Switches |-> IF s \in cn \ conn THEN 0 ELSE Lesser(since[s] + dt, HoldCap)]
 
 \* wires go up and down silently: no controller code runs, nothing may change
 Cut(l) ==
   /\ l \in phys
   /\ phys' = phys \ {l}
   /\ age' = NewAge(phys', conn, 0)
-  /\ UNCHANGED <<net, conn, adj, nf, quiet>>
+  /\ UNCHANGED <<net, cfg, conn, adj, nf, quiet, since>>
   /\ Log("Cut", [l |-> l], [adj |-> adj, evs |-> <<>>, nf |-> nf])
 
 Restore(l) ==
   /\ l \in net.wires \ phys
   /\ phys' = phys \cup {l}
   /\ age' = NewAge(phys', conn, 0)
-  /\ UNCHANGED <<net, conn, adj, nf, quiet>>
+  /\ UNCHANGED <<net, cfg, conn, adj, nf, quiet, since>>
   /\ Log("Restore", [l |-> l], [adj |-> adj, evs |-> <<>>, nf |-> nf])
 
 \* environment assumption: the set of connected switches changes in batches
@@ -195,12 +281,12 @@ Restore(l) ==
 MembershipMayChange == quiet = 0 \/ quiet >= Detect
 
 Permitted(R, ph, cn, dt, q) ==
-  Reason(R, ph, cn, NewAge(ph, cn, dt), q, dt, LiveSet(phys, conn)) = "ok"
+  Reason(R, ph, cn, NewAge(ph, cn, dt), q, dt, LiveSet(phys, conn), NewSince(cn, dt)) = "ok"
 
 Apply(a, args, ph, cn, dt, q, R) ==
   /\ phys' = ph /\ conn' = cn /\ age' = NewAge(ph, cn, dt) /\ quiet' = q
-  /\ adj' = R.adj /\ nf' = R.nf
-  /\ UNCHANGED net
+  /\ adj' = R.adj /\ nf' = R.nf /\ since' = NewSince(cn, dt)
+  /\ UNCHANGED <<net, cfg>>
   /\ Log(a, args, [adj |-> R.adj, evs |-> R.evs, nf |-> R.nf])
 
 
@@ -220,7 +306,7 @@ Advance(d, R)    == AdvEnv(d) /\ Permitted(R, phys, conn, d, Lesser(quiet + d, C
 Flood(s, p) ==
   /\ Converged
   /\ s \in Switches /\ p \in HostPorts(s)
-  /\ UNCHANGED <<net, phys, conn, adj, nf, age, quiet>>
+  /\ UNCHANGED <<net, cfg, phys, conn, adj, nf, age, quiet, since>>
   /\ Log("Flood", [s |-> s, p |-> p],
          [rx |-> Delivered(s, p), storm |-> Storm(s, p)])
 
@@ -237,11 +323,21 @@ AdjChoices(ph, cn, dt, q) ==
   LET ag == NewAge(ph, cn, dt)
       lv0 == LiveSet(phys, conn)
   IN {A \in SUBSET (adj \cup LiveSet(ph, cn)) : AdjReason(A, ph, cn, ag, q, dt, lv0) = "ok"}
-NFChoices(A, cn) ==
+\* (with a spanning_tree option set, host-facing ports of young switches may be blocked too)
+NFChoices(A, cn, sn) ==
   LET cp == PortsIn(cn)
-  IN {N \in {(nf \ cp) \cup X : X \in SUBSET (Ends(A) \cap cp)} : FloodReason(A, cn, N, nf) = "ok"}
+      fr == IF Modal THEN cp ELSE Ends(A) \cap cp
+  IN {N \in {(nf \ cp) \cup X : X \in SUBSET fr} : FloodReasonM(A, cn, N, nf, sn) = "ok"}
+\* announcements: the canonical ones, and every permitted variant in which ONE
+\* link that stays known is withdrawn and announced again inside the step
+EvChoices(A, ph, cn, dt) ==
+  LET lv == LiveSet(ph, cn)
+      lv0 == LiveSet(phys, conn)
+  IN {CanonEvs(A)} \cup
+     {es \in {<<<<0, l[1], l[2], l[3], l[4]>>, <<1, l[1], l[2], l[3], l[4]>>>> \o CanonEvs(A) : l \in adj \cap A} :
+        EvReason(es, A, lv, lv0, dt) = "ok"}
 Responses(ph, cn, dt, q) ==
-  UNION {{[adj |-> A, evs |-> CanonEvs(A), nf |-> N] : N \in NFChoices(A, cn)}
+  UNION {{[adj |-> A, evs |-> es, nf |-> N] : N \in NFChoices(A, cn, NewSince(cn, dt)), es \in EvChoices(A, ph, cn, dt)}
          : A \in AdjChoices(ph, cn, dt, q)}
 
 \* (every R in Responses() is Permitted: the guard of SwitchUp/SwitchDown/
@@ -255,7 +351,7 @@ FloodNext      == \E s \in Switches : \E p \in HostPorts(s) : Flood(s, p)
 
 UpAny      == \E s \in Switches : UpNext(s)
 DownAny    == \E s \in Switches : DownNext(s)
-AdvanceAny == \E d \in Durations : AdvanceNext(d)
+AdvanceAny == \E d \in DurSet : AdvanceNext(d)
 
 Next == \/ UpAny
         \/ DownAny
@@ -272,11 +368,12 @@ Spec == Init /\ [][Next]_vars
 (* from Responses).                                                         *)
 RefR(ph, cn, dt, q) ==
   LET RS == Responses(ph, cn, dt, q)
-      mx == CHOOSE R \in RS : \A Q \in RS : Cardinality(Q.adj) <= Cardinality(R.adj)
+      mx == CHOOSE R \in RS : /\ R.evs = CanonEvs(R.adj)
+                               /\ \A Q \in RS : Cardinality(Q.adj) <= Cardinality(R.adj)
   IN mx
 NextRef == \/ \E s \in Switches \ conn : SwitchUp(s, RefR(phys, conn \cup {s}, 0, 0))
            \/ \E s \in conn : SwitchDown(s, RefR(phys, conn \ {s}, 0, 0))
-           \/ \E d \in Durations : Advance(d, RefR(phys, conn, d, Lesser(quiet + d, Cap)))
+           \/ \E d \in DurSet : Advance(d, RefR(phys, conn, d, Lesser(quiet + d, Cap)))
            \/ CutNext
            \/ RestoreNext
            \/ FloodNext
@@ -284,10 +381,12 @@ NextRef == \/ \E s \in Switches \ conn : SwitchUp(s, RefR(phys, conn \cup {s}, 0
 ----------------------------------------------------------------------------
 (* Properties checked by TLC on the specification itself.                  *)
 
-TypeOK == /\ net \in Nets
+TypeOK == /\ net \in Nets /\ cfg \in Configs /\ CfgFits(cfg, net)
           /\ phys \subseteq net.wires /\ conn \subseteq Switches
           /\ adj \subseteq net.wires /\ nf \subseteq PortsIn(Switches)
           /\ age \in [net.wires -> 0..Cap] /\ quiet \in 0..Cap
+          /\ since \in [Switches -> 0..HoldCap]
+          /\ (~Modal => since = [s \in Switches |-> HoldCap])
 
 \* the adjacency never names a link of a disconnected switch ...
 WithdrawnOnDisconnect == \A l \in adj : l[1] \in conn /\ l[3] \in conn
@@ -302,10 +401,13 @@ ExactWhenSettled == (quiet >= Detect /\ \A l \in net.wires : age[l] >= Expire)
 
 \* flooding: host-facing ports flood; the enabled inter-switch ports are the
 \* two ends of links forming a forest that spans the bidirectional components
-HostPortsFlood == \A sp \in PortsIn(conn) \ Ends(adj) : sp \notin nf
-ForestOK       == FloodReason(adj, conn, nf, nf) = "ok"
-Acyclic        == LET T == TreeLinks(adj, nf) IN Cardinality(T) = 2 * (net.n - NComp(Switches, T))
-Spanning       == \A s \in Switches : Comp(s, TreeLinks(adj, nf)) = Comp(s, Bi(adj))
+\* (with a spanning_tree option set: for the switches that are not young / once no switch is young)
+HostPortsFlood == \A sp \in PortsIn(conn \ MaybeYoung(conn, since)) \ Ends(adj) : sp \notin nf
+ForestOK       == FloodReasonM(adj, conn, nf, nf, since) = "ok"
+Acyclic        == Settled => LET T == TreeLinks(adj, nf) IN Cardinality(T) = 2 * (net.n - NComp(Switches, T))
+Spanning       == Settled => \A s \in Switches : Comp(s, TreeLinks(adj, nf)) = Comp(s, Bi(adj))
+\* hold-down ends: Hold + Slack after the last connect every clause is back in force
+HoldDownEnds   == (\A s \in conn : since[s] >= HoldCap) => FloodReason(adj, conn, nf, nf) = "ok"
 
 \* "so a flooded frame reaches every switch exactly once"
 ExactlyOnce ==
@@ -317,9 +419,10 @@ ExactlyOnce ==
 
 \* the property can always be met (the spec never corners the controller)
 Responsive ==
-  /\ \A s \in Switches \ conn : \E A \in AdjChoices(phys, conn \cup {s}, 0, 0) : NFChoices(A, conn \cup {s}) # {}
-  /\ \A s \in conn : \E A \in AdjChoices(phys, conn \ {s}, 0, 0) : NFChoices(A, conn \ {s}) # {}
-  /\ \A d \in Durations : \E A \in AdjChoices(phys, conn, d, Lesser(quiet + d, Cap)) : NFChoices(A, conn) # {}
+  /\ \A s \in Switches \ conn : \E A \in AdjChoices(phys, conn \cup {s}, 0, 0) :
+        NFChoices(A, conn \cup {s}, NewSince(conn \cup {s}, 0)) # {}
+  /\ \A s \in conn : \E A \in AdjChoices(phys, conn \ {s}, 0, 0) : NFChoices(A, conn \ {s}, NewSince(conn \ {s}, 0)) # {}
+  /\ \A d \in DurSet : \E A \in AdjChoices(phys, conn, d, Lesser(quiet + d, Cap)) : NFChoices(A, conn, NewSince(conn, d)) # {}
 
 \* announcements: per link they alternate, starting with "added", and the
 \* adjacency is what has been announced
@@ -332,10 +435,20 @@ NeverDropsLive ==
   [][\A l \in adj : (IsLive(l, phys, conn) /\ IsLive(l, phys', conn')
                       /\ quiet' >= Detect /\ age'[l] >= Detect) => l \in adj']_vars
 
+\* a link that is known, stays live and has been undisturbed for a full probe
+\* cycle is not announced as removed (not even to be announced again at once)
+NoSpuriousWithdrawal ==
+  [][last'.a \in {"SwitchUp", "SwitchDown", "Advance"} =>
+       \A l \in EvLinks(last'.exp.evs, 0) :
+          ~(l \in adj /\ IsLive(l, phys, conn) /\ IsLive(l, phys', conn')
+            /\ quiet >= Detect /\ age[l] >= Detect)]_vars
+\* the options are those the components were launched with: they never change
+ConfigConstant == [][cfg' = cfg]_vars
+
 \* ---- export for the scenario generator
 Bound   == Len(hist) <= D
 \* (the scenario generator needs the net and the wires that were up at the start:
 \* the latter is recovered from the final `phys` by undoing the Cut/Restore steps)
-Export  == (Len(hist) = D) => PrintT(<<"H", ToJson([net |-> net, phys |-> phys, h |-> hist])>>)
-ExportT == PrintT(<<"T", ToJson([net |-> net', phys |-> phys', h |-> hist'])>>)
+Export  == (Len(hist) = D) => PrintT(<<"H", ToJson([net |-> net, cfg |-> cfg, phys |-> phys, h |-> hist])>>)
+ExportT == PrintT(<<"T", ToJson([net |-> net', cfg |-> cfg', phys |-> phys', h |-> hist'])>>)
 =============================================================================
